@@ -22,6 +22,15 @@ package main
 //@ event SandboxInvokeDoneFailed = ret cmd/aws-lambda-rie.(Sandbox).Invoke when r0 == rapidcore.ErrInvokeDoneFailed || r0 == rapidcore.ErrInitDoneFailed
 //@ spec proxyOf(w net/http.ResponseWriter) *ResponseWriterProxy = w.(*ResponseWriterProxy)
 
+// What the front end may rely on when it hands an invocation to the sandbox. TRUSTED (the implementation is the
+// goroutine/channel orchestration of rapidcore.Server.Invoke, outside the verified subset): the sandbox writes the
+// reply into the writer it was given and into the Invoke record's bookkeeping fields; it never receives the caller's
+// own connection or request body, so it cannot touch them (object capability). The HTTP ghost state of this package's
+// contracts is that of the caller's connection.
+//@ func (Sandbox).Invoke
+//@   trusted rapidcore.Server.Invoke (goroutines, channels, timers) is outside the verified subset; its frame is stated, not proved
+//@   modifies all(ResponseWriterProxy.Body), all(ResponseWriterProxy.StatusCode), all(interop.Invoke.ID), all(interop.Invoke.DeadlineNs), all(interop.Invoke.InvokeResponseMetrics)
+
 //@ func (*ResponseWriterProxy).Write
 //@   modifies w.Body
 //@   ensures [keeps-what-was-written] w.Body == b && r1 == nil
